@@ -41,8 +41,10 @@ def gen(pid, tier, rng, n=None):
         u = histgen.Universe(rng, b, nleaves=(2, 5), ncolls=(1, 4), poison=0.25, depth=rng.choice([0, 1, 1, 2]))
         nt = rng.randint(2, 4)
         only = None
+        others = None
         sh0 = 0.35
-        if pid == "C09" or (pid in ("C03", "C04", "C05") and rng.random() < 0.5):
+        twin = pid == "C01" and rng.random() < 0.35
+        if pid == "C09" or twin or (pid in ("C03", "C04", "C05") and rng.random() < 0.5):
             # thread 0 acquires a retrying collection; the others contend through anything else
             size = rng.randint(1, 4)
             members = []
@@ -64,10 +66,20 @@ def gen(pid, tier, rng, n=None):
             rc = b.coll("retry", members, cont=rng.choice(shapes.CONTS))
             u.roots.append(rc)
             only = [rc]
+            others = None
+            if twin:
+                # C01: the other threads use the same locks singly and through a sorting collection over them
+                leafm = [c for c in members if c in b.leaf_of]
+                others = list(leafm)
+                if len(leafm) >= 2:
+                    sm = list(leafm)
+                    rng.shuffle(sm)
+                    others.append(b.coll(rng.choice(["boxed", "ref"]), sm, cont=rng.choice(shapes.CONTS)))
+                    u.roots.append(others[-1])
         progs = []
         for t in range(nt):
             progs.append((t, thread_prog(rng, u, rng.randint(1, 3), pid in ("C01", "C03", "C05") and rng.random() < 0.3,
-                                         2 if pid == "C02" else 1, only if t == 0 else None,
+                                         2 if pid == "C02" else 1, only if t == 0 else (others if others and rng.random() < 0.8 else None),
                                          sh0 if t == 0 else 0.35)))
         total = sum(len(p) for _, p in progs)
         sched = [rng.randrange(nt) for _ in range(rng.randint(total, 4 * total + 4))]
@@ -77,8 +89,19 @@ def gen(pid, tier, rng, n=None):
             while len(sched) < 3 * total:
                 sched += [rng.randrange(nt)] * rng.randint(1, 8)
         pol = "wp" if rng.random() < 0.5 else "rp"
-        scens.append(b.scen(progs=progs, sched=(pol, sched), fuel=len(sched) + 4 * total + 8,
-                            meta={"nt": nt, "policy": pol, "roots": [b.desc[c] for c in u.roots]}))
+        pct = None
+        fuel = len(sched) + 4 * total + 8
+        if rng.random() < 0.4:
+            # priority scheduling with a few demotion points (PCT): each thread runs until it has to wait, which piles
+            # up hold-and-wait situations; the harness reports the effective schedule, which the model replays
+            prios = list(range(nt))
+            rng.shuffle(prios)
+            steps = 6 * total + 10
+            pct = (prios, sorted(rng.sample(range(steps), rng.randint(0, 3))))
+            sched = []
+            fuel = 40 * total + 60
+        scens.append(b.scen(progs=progs, sched=(pol, sched, pct), fuel=fuel,
+                            meta={"nt": nt, "policy": pol, "pct": bool(pct), "roots": [b.desc[c] for c in u.roots]}))
     return scens
 
 
@@ -86,11 +109,16 @@ def coq_expr(pid, s, r, suffix=""):
     if r["bobs"] is None or r["sched"] is None:
         return None
     sched = "[" + "; ".join(map(str, r["sched"])) + "]"
+    if pid == "C01" and not suffix:
+        # check_C01': + acyclic lock-order graph of the implementation's execution (also reported on its own: a cyclic
+        # graph marks the scenario as the best candidate for the search of a deadlocking schedule)
+        return (f"(check_C01' ({s.coq_b(*r['adr'])}) {sched} ({hl.bobs_coq(r['bobs'])}), "
+                f"acyclic_impl ({s.coq_b(*r['adr'])}) ({hl.bobs_coq(r['bobs'])}))")
     return f"check_{pid}{suffix} ({s.coq_b(*r['adr'])}) {sched} ({hl.bobs_coq(r['bobs'])})"
 
 
 def classify(s, r):
-    out = [f"threads={s.meta['nt']}", f"policy={s.meta['policy']}", "status=" + (r["bobs"] or "?").split(" | ")[0]]
+    out = [f"threads={s.meta['nt']}", f"policy={s.meta['policy']}", f"scheduler={'priority' if s.meta.get('pct') else 'list'}", "status=" + (r["bobs"] or "?").split(" | ")[0]]
     if r["bobs"] and "BWait" in r["bobs"]:
         out.append("waits=yes")
     return out
@@ -107,3 +135,67 @@ def nontrivial(pid, s, r):
 
 def signature(s):
     return s.text()
+
+
+def _sched_variants(s, rng, n, tag):
+    import copy
+    out = []
+    nt = max(t for t, _ in s.progs) + 1
+    total = sum(len(p) for _, p in s.progs)
+    for i in range(n):
+        v = copy.copy(s)
+        v.sid = f"{s.sid}_{tag}{i}"
+        pol = s.sched[0]
+        if i % 2 == 0:
+            prios = list(range(nt))
+            rng.shuffle(prios)
+            steps = 8 * total + 10
+            v.sched = (pol, [], (prios, sorted(rng.sample(range(steps), rng.randint(1, 4)))))
+        else:
+            v.sched = (pol, [rng.randrange(nt) for _ in range(rng.randint(total, 6 * total + 4))], None)
+        v.fuel = 40 * total + 60
+        v.meta = dict(s.meta, pct=i % 2 == 0, nt=nt)
+        out.append(v)
+    return out
+
+
+def deepen(pid, s, rng, n=300):
+    """used when the correspondence or the lock-order discipline broke, to find an execution on which the monitor
+    fails: the same programs under many other schedules (random lists and priority scheduling with up to 4
+    demotions); for C01 also the same programs plus one more thread that takes, through a sorting collection built
+    with try_new, the locks that one of the acquired collections lists directly (a partner for a wrong lock order)"""
+    import copy
+    out = _sched_variants(s, rng, n if pid != "C01" else n // 3, "d")
+    if pid != "C01":
+        return out
+    defs = dict(s.defs)
+    inline = {d[2] for d in defs.values() if d[0] == "poison"}
+    used = []
+    for _, ops in s.progs:
+        for op in ops:
+            if op[0] == "acq" and op[1] not in used:
+                used.append(op[1])
+    nt = max(t for t, _ in s.progs) + 1
+    k = 0
+    for c in used:
+        d = defs.get(c)
+        if d is None or d[0] in ("leaf", "poison") or d[0] == "owned":
+            continue
+        leafm = [m for m in d[4] if defs.get(m, ("?",))[0] == "leaf" and m not in inline]
+        if len(leafm) < 2:
+            continue
+        v = copy.copy(s)
+        newc = max(defs) + 1 + k
+        members = sorted(leafm)
+        v.defs = list(s.defs) + [(newc, ("boxed", None, "try", "vec", members))]
+        prog = []
+        for _ in range(2):
+            prog += [("get",), ("acq", newc, "ex", "guard"), ("gdrop",)]
+        v.progs = list(s.progs) + [(nt, prog)]
+        v.sid = f"{s.sid}_t{k}"
+        v.meta = dict(s.meta, nt=nt + 1)
+        out += _sched_variants(v, rng, n // 3, "s")
+        k += 1
+        if k >= 2:
+            break
+    return out
